@@ -38,7 +38,7 @@ Lemma root_type_agrees VS ES ot rt :
   Vld.ValidSpec.root_type VS (option_map (fun o => (Syn.Ast.ot_value o, vpos (Syn.Ast.ot_pos o))) ot) = Some rt ->
   exists rt', ExeA.ArgSpec.s_root_type ES (e_kind ot) = Some rt'.
 Proof.
-  intros Ha Hr. unfold schemas_agree in Ha.
+  intros Ha Hr. unfold schemas_agree in Ha. apply andb_true_iff in Ha as [Ha _].
   apply andb_true_iff in Ha as [Ha Hsub]. apply andb_true_iff in Ha as [Ha Hmut]. clear Ha.
   destruct ot as [o|]; [|eexists; reflexivity].
   cbn [option_map Vld.ValidSpec.root_type] in Hr. unfold e_kind.
@@ -79,7 +79,6 @@ Definition validate_establishes_sels_ok pi VS F ES : Prop :=
     ExeA.ArgModel.get_operation (exe_of_syn d) opname = ExeA.ArgModel.GOp o ->
     let D := ExeA.ArgData.doc_of (exe_of_syn d) o vv in
     let E := ExeA.ArgArgs.env_of_vars vv in
-    ExeA.ArgHyps.dirs_evaluable D E = true ->
     ExeA.ArgSpec.s_root_type ES (ExeA.ArgData.op_kind D) = Some rt ->
     ExeA.ArgSpec.sels_ok ES D E (ExeA.ArgModel.default_fuel D) (ExeA.ArgModel.default_fuel D) rt (ExeA.ArgData.op_sels D) = true.
 
@@ -87,19 +86,18 @@ Theorem typing_from_sels_ok pi VS F ES :
   Vld.ProofsCommon.order_ok pi -> schemas_agree VS ES = true ->
   validate_establishes_sels_ok pi VS F ES -> validate_establishes_typing pi VS F ES.
 Proof.
-  intros Hpi Ha Hs bs d opname o vv Hacc Hg D E Hev. subst D E. unfold doc_typed.
+  intros Hpi Ha Hs bs d opname o vv Hacc Hg D E. subst D E. unfold doc_typed.
   destruct (accepted_root_type pi VS F ES bs d opname o vv Hpi Ha Hacc Hg) as (rt & Hr). rewrite Hr.
-  exact (Hs bs d opname o vv rt Hacc Hg Hev Hr).
+  exact (Hs bs d opname o vv rt Hacc Hg Hr).
 Qed.
 
 Theorem pipeline_response_if_sels_ok pi VS F ES bs opname raw W :
   Vld.ProofsCommon.order_ok pi ->
   schema_accepted ES = true -> schemas_agree VS ES = true ->
   validate_establishes_sels_ok pi VS F ES -> text_positions_small bs ->
-  request_evaluable pi VS F ES bs opname raw ->
   is_response (pipeline_order pi VS F ES bs opname raw W) = true.
 Proof.
-  intros Hpi Hn Ha Hs Hp Hev.
+  intros Hpi Hn Ha Hs Hp.
   apply (pipeline_response_if_typing pi VS F ES bs opname raw W Hpi Hn Ha); try assumption.
   apply typing_from_sels_ok; assumption.
 Qed.
